@@ -35,7 +35,7 @@ THEOREMS = ["C01_nested_not_intercepted", "C01_simulation", "C01_replay_reproduc
             "C01_nonfunctional_refuted"]
 
 W = dict(rd.DEFAULT_W, spawn=0.6, spawn_in_body=False, fault=0.0, unser=0.0, discard=0.0, force=0.3, interrupt=0.0, raise_=0.2, enable=0.0, prep_discards=0.0,
-         playdata=0.0, recdata=0.4, missing_opts=0.1, fallbacks=0.2, handler=0.25, nested=0.3)
+         playdata=0.0, recdata=0.4, missing_opts=0.1, fallbacks=0.2, handler=0.25, nested=0.3, unsized_handlers=0.3)
 PRM = dict(rate=[1, 1], ignore=False, skipped=False, copy=False)
 
 
